@@ -12,6 +12,8 @@ try:
     subprocess.run(['rsync', '-a', '--exclude', 'target', '--exclude', '.git', '/repo/', scratch + '/'], check=True)
     env = dict(os.environ, VERIF_REPO=scratch, VERIF_BUILD=scratch + '/.vxbuild', VERIF_EVIDENCE=scratch + '/.vxevidence')
     for d in sorted(glob.glob('/verif/seeded/%s*/' % pref)):
+        if not os.path.exists(d + 'meta.json'):
+            continue
         m = json.load(open(d + 'meta.json'))
         r = subprocess.run(['patch', '-p1', '-s', '-i', d + 'patch.diff'], cwd=scratch, capture_output=True, text=True)
         if r.returncode != 0:
